@@ -95,8 +95,16 @@ def gen_script(rng, case, m, ncalls):
     script = {}
     used = set()
     reread = []
-    for c in range(ncalls + 2):
-        if rng.random() < 0.3:
+    segs = case['segments']
+
+    def byte_op(a):
+        # the packed byte of the op at word a lives in word a+1: mostly dw-aligned ops, sometimes an op on an odd
+        # word - but only when word a+1 is still inside the segment (device accesses stay in-segment)
+        if rng.random() < 0.3 and any(s['start'] <= a and a + 1 < s['start'] + s['length'] for s in segs):
+            return a << ww
+        return (a & ~1) << ww
+    for c in (['attach'] if rng.random() < 0.3 else []) + list(range(ncalls + 2)):
+        if c != 'attach' and rng.random() < 0.3:
             continue
         acts = []
         for _ in range(rng.choice([1, 2, 2, 3, 4])):
@@ -124,10 +132,10 @@ def gen_script(rng, case, m, ncalls):
                 if v == G.MAGIC or rng.random() < 0.15:
                     reread.append(a)          # read the same word back at a later call
             elif r < 0.85:
-                opa = (a & ~1) << ww
+                opa = byte_op(a)
                 acts.append(['rb', opa])
             else:
-                opa = (a & ~1) << ww
+                opa = byte_op(a)
                 acts.append(['wb', opa, rng.randrange(256)])
             used.add(cname + ':' + acts[-1][0])
         if reread and rng.random() < 0.7:
